@@ -200,6 +200,15 @@ thread_local!
     static CUR : RefCell<Option<(Arc<Ctx>, usize)>> = RefCell::new(None);
 }
 
+/* Progress indicators for the worker's watchdog: a simulation is running / scheduling points passed.
+   Only thread/mpsc of build.rs are behind the scheduler seam.  If changed code makes rule threads
+   wait for each other through something else (a std Mutex held across a System call, a Condvar, a
+   barrier), the thread holding the baton can block in the OS for ever; that is outside what this
+   simulator can decide, and the watchdog turns it into a prompt, explicit harness error instead of
+   a silent hang. */
+pub static SIM_ACTIVE : std::sync::atomic::AtomicBool = std::sync::atomic::AtomicBool::new(false);
+pub static SIM_STEPS : std::sync::atomic::AtomicU64 = std::sync::atomic::AtomicU64::new(0);
+
 fn cur() -> Option<(Arc<Ctx>, usize)>
 {
     CUR.with(|c| c.borrow().clone())
@@ -424,6 +433,7 @@ impl Ctx
             abort_unwind();
         }
         g.steps += 1;
+        SIM_STEPS.fetch_add(1, std::sync::atomic::Ordering::Relaxed);
         if g.steps > g.step_bound
         {
             let bound = g.step_bound;
@@ -582,6 +592,8 @@ pub fn run_sim<T, F : FnOnce() -> T>(spec : SchedSpec, step_bound : u32, f : F) 
     }
 
     CUR.with(|c| *c.borrow_mut() = Some((ctx.clone(), 0)));
+    SIM_ACTIVE.store(true, std::sync::atomic::Ordering::Relaxed);
+    SIM_STEPS.fetch_add(1, std::sync::atomic::Ordering::Relaxed);
     let res = panic::catch_unwind(AssertUnwindSafe(f));
     CUR.with(|c| *c.borrow_mut() = None);
 
@@ -616,6 +628,7 @@ pub fn run_sim<T, F : FnOnce() -> T>(spec : SchedSpec, step_bound : u32, f : F) 
         },
     };
 
+    SIM_ACTIVE.store(false, std::sync::atomic::Ordering::Relaxed);
     SimOutcome
     {
         result : result,
